@@ -117,6 +117,18 @@ lp_use_pool(struct drv *d, int which)
     d->alloc = (BlockAllocator)MAKE_GENERIC_BLOCKALLOC(d, lp_pool_alloc, lp_pool_free, d->blocksize);
 }
 
+/* Releases that were no release of a live block (a block released twice, or a
+ * pointer the allocator never handed out).  How many blocks a receiver holds at
+ * a time and when it gives them back is statement C09's sentence, not C06's or
+ * C07's: those two only look at this.  (The drivers also add 100 to bad_frees
+ * when more blocks are live than they can track; that is a count of live
+ * blocks and is left out here.) */
+static inline int
+lp_bad_releases(const struct drv *d)
+{
+    return d->bad_frees % 100;
+}
+
 /* end of a case: forget live blocks (heap blocks are released, pool slots stay with the pool) */
 static void
 lp_release(struct drv *d)
